@@ -125,6 +125,9 @@ fn copy_worker(work: cbc::Receiver<Operation>, config: &Arc<Config>, updates: Ar
                     if config.no_clobber {
                         return Err(XcpError::DestinationExists("Destination file exists and --no-clobber is set.", to).into());
                     }
+                    if paths::same_entry(&from, &to)? {
+                        return Err(XcpError::InvalidDestination("Source and destination are the same file.").into());
+                    }
                     remove_file(&to)?;
                 }
                 copy_node(&from, &to)?;
